@@ -92,3 +92,11 @@ package beacon
 //@   opt noalloc
 //@   ensures (err != nil) == ce_state_err(e)
 //@   ensures err == nil ==> state == ce_state(e) && state != nil
+
+//@ ufun ch_known_at(int, RootT, SlotT) bool
+//@ ufun ch_entry_at(int, RootT, SlotT) EntryI
+//@ func (c Chain) ByBlockSlot(root, slot) (entry, ok)
+//@   trusted
+//@   opt noalloc
+//@   ensures ok == ch_known_at(gvver, root, slot)
+//@   ensures ok ==> entry == ch_entry_at(gvver, root, slot) && entry != nil
